@@ -103,6 +103,11 @@ CHECKS = {
          'Rzx is model-checked for no desync, boundary and final agreement and stop-file faithfulness over programs x frame plans x conventions x flags x every stop point. Generated programs (IN loops, HALT, EI/DI, IM 1/2, 48K and 128K paging through partially decoded ports, AY) recorded on the real simulators into 1-3-block RZX files ({z80 v1/v3, szx} snapshots, compressed or not) are played by rzxplay.main under {C,--python} x {plain,--cmio} x flags 0..7, stopped at every frame, written and resumed, reported by rzxinfo --frames, and judged by TLC against the recorder\'s states and frames.',
          'Programs and frame plans are sampled; claims are made only where the flags match the recording convention (the rest is counted as drift); T-states are not compared; rzxinfo is checked for the <=10 readings it prints; zlib and the C09 snapshot decoder are trusted projections; self-modifying recordings whose instruction class changes get no claim.',
          'DESIGN.md §4 C20'),
+ 'C11': ('model_checking',
+         'TLA+ Tape specification (generator state machine) model-checked against the declarative TapeSignal specification (played signal = specified signal, edges monotone, data ranges and bits decoded from the edges) on every tape of bounded alphabets; every one of those tapes and random larger ones are replayed into the real get_edges and judged by TLC; TapeFormats (TAP/TZX/PZX byte layouts) is applied by TLC to the raw bytes of files and compared with the real parsers, writers and tapinfo',
+         'Every tape of the bounded models (alphabets of pulse/tone/data/pause blocks incl. zero widths, used bits 1..8, tails, pauses, polarity bits) x first-edge x polarity replayed into get_edges, plus random TZX-/PZX-expressible tapes of up to 6 blocks with widths up to 65535; files written by the real write_tap/write_pzx (lengths 0..65535, every flag class) and by independent TZX/PZX byte writers: one tape as TAP / TZX 0x10 / 0x11 / 0x12+0x13+0x14 / PZX must give one edge list; TZX signal blocks incl. 0x15 and 0x20 with group/loop/info blocks interleaved; every PZX PULS word form; truncated files; --tape-start/stop/skip; tapinfo block lists.',
+         'tapinfo output is projected by regular expressions to (block number, id, length); files over 12000 edges or with edge times >= 2^31 are judged for parsing/round trip only; a TAP/TZX 0x10 block with flag byte 1..127 played with the short pilot is drift; TZX 0x16-0x19 CSW/generalized blocks (documented as unsupported) are not generated; zero-length pulses at the ends of sample-mode data are open findings.',
+         'DESIGN.md §4 C11'),
 }
 
 PENDING = {}
